@@ -1112,6 +1112,9 @@ def _o_kfactor(stats, p, c, n):
         zp = norm.ppf(p)
         k1 = _call(stats.ksingle, p, c, n)
         want = nct.ppf(c, n - 1, zp * sn) / sn
+        if not math.isfinite(want):
+            # scipy's non-central t quantile itself gives up (nan) for very large non-centrality: no reference
+            return out
         if isinstance(k1, str) or not abs(float(k1) - want) <= 1e-10 * max(1.0, abs(want)):
             fail("ksingle-not-nct-quantile", "ksingle != nct.ppf(c, n-1, z_p sqrt n)/sqrt n", k1, want)
         else:
